@@ -90,7 +90,44 @@ func runC04(r *simrt.Run, tier Tier) Outcome {
 		ri := r.Choose(len(prog.Rules), "c04.rule")
 		rule := prog.Rules[ri]
 		body := append([]Lit{}, rule.Body...)
-		switch r.Choose(10, "c04.kind") {
+		switch r.Choose(11, "c04.kind") {
+		case 10: // a negated atom over a variable that gets its value through an equality with a variable bound further right
+			ls := lower(rule)
+			bound, _, _ := BindingClosure(body)
+			var bvs []string
+			for v := range bound {
+				bvs = append(bvs, v)
+			}
+			sortStrings(bvs)
+			if len(ls) > 0 && len(bvs) > 0 {
+				w := bvs[r.Choose(len(bvs), "c04.alias.var")]
+				q := ls[r.Choose(len(ls), "c04.alias.pred")]
+				f := freshVar()
+				if r.OneIn(4, "c04.alias.self") {
+					f = w // X = X
+				}
+				var args []Expr
+				used := false
+				for _, t := range q.Cols {
+					if varHasType(prog, rule, w, t) && (!used || r.Bool("c04.alias.again")) {
+						args = append(args, V(f))
+						used = true
+					} else {
+						args = append(args, V("_"))
+					}
+				}
+				if used {
+					eq := Lit{K: LEq, Args: []Expr{V(f), V(w)}}
+					if r.Bool("c04.alias.flip") {
+						eq.Args[0], eq.Args[1] = eq.Args[1], eq.Args[0]
+					}
+					neg := Lit{K: LNeg, Pred: q.Name, Args: args}
+					pos := r.Choose(len(body)+1, "c04.alias.eqpos")
+					body = append(body[:pos:pos], append([]Lit{eq}, body[pos:]...)...)
+					body = append([]Lit{neg}, body...)
+					pertDesc = append(pertDesc, fmt.Sprintf("rule %d: put %s in front, %s at position %d", ri, neg.Src(), eq.Src(), pos+1))
+				}
+			}
 		case 8: // comparison whose operand is a function of a variable bound later, or never
 			bound, _, _ := BindingClosure(body)
 			var ints []string
